@@ -5,6 +5,7 @@ import OrsoVerif.Lemmas.SchemaHeap
 import OrsoVerif.Lemmas.SchemaBattery
 import OrsoVerif.Lemmas.SchemaOpaque
 import OrsoVerif.Lemmas.SchemaIter
+import OrsoVerif.Lemmas.SchemaEdit
 import OrsoVerif.Generated.SchemaFns
 /-!
 # C17 — Schema union and lookup are identity-based, ordered and non-mutating
@@ -912,5 +913,161 @@ theorem live_iterator_skips_after_removal :
       = some [.made 0, .it (.item 1), .base (.out (.popped (some ⟨0, 10, 1, none⟩))), .it (.rest [2, 3])] := by
   decide
 
+/-! ## Column objects edited between two lookups; every way of writing the sum (fifth pass) -/
+
+/-- **A lookup reads the column as it is *now*.**  A column object lives on between two operations of a schema and a
+caller may rename it, give it another alias list, or edit the alias list *in place* (`append`, `remove`, `insert`, item
+assignment, `del`, `clear`, `+=`, `reverse` — the same list object afterwards).  `FlatColumn.all_names` — what every
+lookup and `all_column_names` go through — is modelled with whatever memo the source keeps on the column
+(`Gen.SchemaOps.allNamesMemo`, re-read from `orso/schema.py` on every run: none; or revalidated by the name and / or the
+aliases as an object / a copy).  For every history of edits and reads on a column that starts without a memo, every
+read answers with the names of the column's current name and current aliases; and the translated body of `all_names`
+computes exactly those. -/
+theorem all_names_sees_edits (c : Cell ν) (hm : c.memo = none) (h : List (Option (Edit ν))) :
+    Cell.run Gen.SchemaOps.allNamesMemo c h = namesAlong c.name c.aliases h
+    ∧ ∀ (k : Col ι ν) (e : Edit ν), Gen.SchemaFns.all_names (e.apply k) = namesOf (e.onNA k.name k.aliases).1 (e.onNA k.name k.aliases).2 := by
+  constructor
+  · refine Cell.run_eq_namesAlong _ ?_ h c ?_
+    · first
+        | exact Or.inl rfl
+        | exact Or.inr rfl
+    · intro m h'
+      rw [hm] at h'
+      cases h'
+  · intro k e
+    rw [generated_all_names_eq_model]
+    rfl
+
+/-- Which memos are harmless: none at all, or one revalidated by the name and a *copy* of the alias list compared by value
+— from any state whose memo is sound, every read is the current column's names. -/
+theorem memo_by_value_is_transparent (p : Option (Bool × String)) (hp : p = none ∨ p = some (true, "copy"))
+    (c : Cell ν) (hs : c.MemoSound) (h : List (Option (Edit ν))) :
+    Cell.run p c h = namesAlong c.name c.aliases h :=
+  Cell.run_eq_namesAlong p hp h c hs
+
+/-- The proved counterexample: a memo revalidated by `cached name == name and cached list **is** aliases` survives an
+edit in place — read, `aliases.append(2)`, read: the second read still gives the names without the alias — while a
+replacement of the list is noticed, and a memo keyed on a copy notices both. -/
+theorem memo_revalidated_by_object_is_stale :
+    let c : Cell Nat := ⟨1, some [], 0, none⟩
+    Cell.run (some (true, "object")) c [none, some (.append 2), none] = [namesOf 1 (some []), namesOf 1 (some [])]
+    ∧ namesAlong 1 (some []) [none, some (.append 2), none] = [namesOf 1 (some []), namesOf 1 (some [2])]
+    ∧ namesOf 1 (some []) ≠ namesOf 1 (some [2])
+    ∧ Cell.run (some (true, "object")) c [none, some (.replace (some [2])), none] = [namesOf 1 (some []), namesOf 1 (some [2])]
+    ∧ Cell.run (some (true, "copy")) c [none, some (.append 2), none] = [namesOf 1 (some []), namesOf 1 (some [2])] := by
+  decide
+
+/-- **An alias given in place is found at once.**  `c.aliases.append(k)` on the column object `c` of a schema in which no
+earlier column bears `k` (under any normalisation: exact or ignoring case): the very next lookup of `k` returns `c` — as it
+is now. -/
+theorem find_after_alias_append (norm : ν → ν) (k : ν) (pre post : List (Col ι ν)) (c : Col ι ν) (as : List ν)
+    (hal : c.aliases = some as)
+    (htag : ∀ d ∈ pre, d.tag ≠ c.tag) (hpre : ∀ d ∈ pre, d.bears norm k = false) :
+    findCol norm k ((pre ++ c :: post).map fun x => if x.tag = c.tag then (Edit.append k).apply x else x)
+      = some ((Edit.append k).apply c) := by
+  have hmap : pre.map (fun x => if x.tag = c.tag then (Edit.append k).apply x else x) = pre := by
+    conv => rhs; rw [← List.map_id pre]
+    apply List.map_congr_left
+    intro d hd
+    simp [htag d hd]
+  rw [List.map_append, List.map_cons, hmap]
+  simp only [if_true]
+  apply findCol_of_split _ _ _ _ _ _ hpre
+  simp only [Col.bears, decide_eq_true_eq]
+  apply List.mem_map_of_mem
+  rw [mem_allNames]
+  right
+  exact ⟨as ++ [k], by simp [Edit.apply, Edit.onNA, Edit.onList, hal], by simp⟩
+
+/-- **An alias taken away in place is gone at once**: after `c.aliases.remove(k)` (the alias stood once, the column is not
+named `k`) the column no longer bears `k`, and bears every other key exactly as before. -/
+theorem alias_removed_is_not_borne (k : ν) (c : Col ι ν) (as : List ν) (hal : c.aliases = some as) (hn : c.name ≠ k)
+    (h1 : as.count k ≤ 1) :
+    ((Edit.remove k).apply c).bears id k = false
+    ∧ ∀ x, x ≠ k → (((Edit.remove k).apply c).bears id x = c.bears id x) := by
+  have hk : k ∉ as.erase k := by
+    rw [← List.count_eq_zero, List.count_erase_self]
+    omega
+  constructor
+  · simp only [Col.bears, List.map_id, decide_eq_false_iff_not, id]
+    rw [mem_allNames]
+    simp only [Edit.apply, Edit.onNA, Edit.onList, hal, Option.map_some, Option.some.injEq, exists_eq_left']
+    rintro (h | h)
+    · exact hn h.symm
+    · exact hk h
+  · intro x hx
+    simp only [Col.bears, List.map_id, id, decide_eq_decide]
+    rw [mem_allNames, mem_allNames]
+    simp only [Edit.apply, Edit.onNA, Edit.onList, hal, Option.map_some, Option.some.injEq, exists_eq_left']
+    rw [List.mem_erase_of_ne hx]
+
+/-- An edit changes what a column is called, never which columns a schema lists: every schema keeps its name, its
+aliases and — position by position — the same column objects with the same identities. -/
+theorem edit_moves_no_column (t : Nat) (e : Edit ν) (regs : List (Schema ι ν)) :
+    (editRegs t e regs).map (fun s => (s.name, s.aliases, s.columns.map fun c => (c.tag, c.identity)))
+      = regs.map (fun s => (s.name, s.aliases, s.columns.map fun c => (c.tag, c.identity))) := by
+  simp only [editRegs, List.map_map]
+  apply List.map_congr_left
+  intro s _
+  simp only [Function.comp_apply, List.map_map, Prod.mk.injEq, true_and]
+  apply List.map_congr_left
+  intro c _
+  simp only [Function.comp_apply]
+  split <;> rfl
+
+/-- … and the sum does not care: editing a column object before the sum or after it gives the same sum (the sum is
+identity-based; the column objects are shared, not copied). -/
+theorem sum_commutes_with_edits (t : Nat) (e : Edit ν) (a b : Schema ι ν) :
+    (union { a with columns := a.columns.map fun c => if c.tag = t then e.apply c else c }
+           { b with columns := b.columns.map fun c => if c.tag = t then e.apply c else c }).columns
+      = (union a b).columns.map fun c => if c.tag = t then e.apply c else c :=
+  union_ignores_names (fun c => if c.tag = t then e.apply c else c) (by intro c; split <;> rfl) a b _ _ _ _
+
+/-- **Every way of writing the sum is the one sum.**  `a += b` (and `operator.iadd`, a `total += part` fold,
+`functools.reduce(operator.iadd, …)`) is evaluated by Python as `a = a.__iadd__(b)` when the class defines `__iadd__` and
+as `a = a.__add__(b)` when it does not.  `Gen.SchemaOps.augmentedInPlace` — re-read from the class body on every run —
+says whether an `__iadd__` exists that changes `self`; it does not, so on the heap of list objects the augmented sum *is*
+the plain sum bound to a new name. -/
+theorem augmented_sum_is_plain_sum (lower : ν → ν) (st : SchemaHeap.St ι ν) (i j : Nat) :
+    SchemaHeap.haug Gen.SchemaOps.augmentedInPlace Gen.SchemaOps.addCopies lower st i j
+      = SchemaHeap.hstep Gen.SchemaOps.addCopies lower st (.add i j) := by
+  have h : Gen.SchemaOps.augmentedInPlace = false := by decide
+  simp [SchemaHeap.haug, h]
+
+/-- … hence it modifies neither operand: from a state without shared column lists, after `regs[i] += regs[j]` every
+schema that existed holds what it held, the new one is `union a b`, and again no two schemas share a list. -/
+theorem augmented_sum_modifies_neither_operand (lower : ν → ν) (st st' : SchemaHeap.St ι ν) (hwf : st.WF) (i j : Nat) (o : POut ι ν)
+    (h : SchemaHeap.haug Gen.SchemaOps.augmentedInPlace Gen.SchemaOps.addCopies lower st i j = some (st', o)) :
+    ∃ a b, st.abs[i]? = some a ∧ st.abs[j]? = some b ∧ st'.abs = st.abs ++ [union a b] ∧ o = .schema (union a b) ∧ st'.WF := by
+  rw [augmented_sum_is_plain_sum] at h
+  have hc : Gen.SchemaOps.addCopies = true := by decide
+  rw [hc] at h
+  obtain ⟨h1, h2⟩ := SchemaHeap.heap_refines_step lower st (.add i j) hwf
+  rw [h] at h1
+  simp only [Option.map_some, pstep] at h1
+  cases ha : st.abs[i]? with
+  | none => simp [ha] at h1
+  | some a =>
+    cases hb : st.abs[j]? with
+    | none => simp [ha, hb] at h1
+    | some b =>
+      simp only [ha, hb, Option.some.injEq, Prod.mk.injEq] at h1
+      exact ⟨a, b, rfl, rfl, h1.1, h1.2, h2 st' o h⟩
+
+/-- The proved counterexample (what an `__iadd__` that appends to `self.columns` and returns `self` does): `a += b`
+turns a one-column `a` into a two-column `a` for everybody who holds `a`. -/
+theorem inplace_augmented_sum_modifies_left :
+    ∃ (st : SchemaHeap.St Nat Nat) (st' : SchemaHeap.St Nat Nat) (o : POut Nat Nat),
+      st.WF ∧ SchemaHeap.haug true true id st 0 1 = some (st', o)
+      ∧ (st.abs[0]?.map (·.columns)) = some [⟨0, 10, 1, none⟩]
+      ∧ (st'.abs[0]?.map (·.columns)) = some [⟨0, 10, 1, none⟩, ⟨1, 11, 2, none⟩] := by
+  refine ⟨{ heap := [[⟨0, 10, 1, none⟩], [⟨1, 11, 2, none⟩]], regs := [⟨7, [], 0⟩, ⟨9, [], 1⟩] }, _, _, ?_, rfl, ?_, ?_⟩
+  · constructor
+    · intro s hs
+      simp only [List.mem_cons, List.not_mem_nil, or_false] at hs
+      rcases hs with rfl | rfl <;> decide
+    · decide
+  · decide
+  · decide
 
 end C17
